@@ -90,7 +90,7 @@ Definition apply (e : ev) (s : gs) : option gs :=
       end
   | ECheat pid =>
       match find pid (procs s) with
-      | Some p => if Z.eqb (my p) 0
+      | Some p => if Z.eqb (my p) 0 && Z.eqb (ch p) 0   (* no second cheat on top of an unpaid one (fix F81) *)
                   then Some (set_procs s (upd pid {| my := 1; ch := ch p + 1 |} (procs s)))
                   else None
       | None => None
